@@ -878,6 +878,44 @@ def c20(rep, W, rule="C20"):
     for k, n in sorted(found.items()):
         rep.ob(rule + ".ONLY", (k[0].split("::")[-1] if "closure" not in k[0] else "main-app-factory", k[1].split("::")[-1], k[0][-50:]), k in allowed and n <= allowed[k] or (k in allowed and k[1].endswith("Scope::<T>::service")),
                "%d %s registration(s) in %s%s" % (n, k[1], k[0], "" if k in allowed else " -- not in the enumerated set: a service outside the no-store scope"))
+    # MIDDLEWARE: DefaultHeaders decorates only `Ok` responses that come back through it; an Err returned by a middleware
+    # registered *inside* the scope, or a response built by one registered anywhere, is not covered by the argument.
+    # Every middleware registration in the workspace must therefore be one of the enumerated, individually justified ones.
+    MW = ("wrap", "wrap_fn")
+    allowed_mw = {
+        (WD.SERVER + "::WebServer::config", "actix_web::scope::Scope::<T>::wrap"): "the DefaultHeaders(no-store) wrapper itself (checked by C20.WRAP)",
+        ("bin:" + WD.SERVER + "::main::{closure#0}::{closure#0}", "actix_web::app::App::<T>::wrap"):
+            "ErrorHandlers(500 -> print_error, which returns the same response) and Logger (does not build responses); both outside the scope, "
+            "so they only ever see responses that already carry the header",
+    }
+    nmw = 0
+    for b in W.prog.bodies.values():
+        for bb, t in b.calls():
+            d = t["callee"].get("def", "")
+            if d.startswith("actix_web::") and d.split("::")[-1] in MW:
+                nmw += 1
+                okm = (b.key, d) in allowed_mw
+                rep.ob(rule + ".MIDDLEWARE", (S.short_fn(b), d.split("::")[-2] + "::" + d.split("::")[-1], S.ordinal_key(b, d, bb)), okm,
+                       "middleware registered via %s in %s: %s" % (d, b.deff, allowed_mw.get((b.key, d), "NOT an enumerated middleware -- a middleware inside the no-store scope can "
+                                                                   "return an Err (or build a response) that bypasses DefaultHeaders, which only decorates Ok responses passing through it")),
+                       where(b, bb))
+    rep.floor(rule + ".MIDDLEWARE", "middleware registrations scanned", nmw, 1)
+    # the two App::wrap arguments are the expected middlewares
+    fac0 = W.prog.bodies.get("bin:" + WD.SERVER + "::main::{closure#0}::{closure#0}")
+    if fac0 is not None:
+        pvf = W.prov(fac0)
+        kinds = []
+        for bb, t in fac0.calls():
+            if t["callee"].get("def") == "actix_web::app::App::<T>::wrap":
+                a = pvf.arg_terms(bb)[1]
+                if a[0] == "call" and a[1] == "actix_web::middleware::err_handlers::ErrorHandlers::<B>::handler":
+                    kinds.append("ErrorHandlers->" + (a[3][2][1].split("::")[-1] if a[3][2][0] == "fn" else "?"))
+                elif a[0] == "call" and a[1] == "core::default::Default::default" and fac0.blocks[a[2]]["term"]["callee"].get("resolved", "").startswith("<actix_web::middleware::logger::Logger"):
+                    kinds.append("Logger")
+                else:
+                    kinds.append("?" + P.show(a)[:60])
+        rep.ob(rule + ".MIDDLEWARE", ("main-app-factory", "outer-middlewares"), sorted(kinds) == ["ErrorHandlers->print_error", "Logger"],
+               "middlewares around the application: %s (expected ErrorHandlers with print_error, and Logger)" % kinds, where(fac0))
     # the app factory's configure closure calls exactly WebServer::config
     fac = W.prog.bodies.get("bin:" + WD.SERVER + "::main::{closure#0}::{closure#0}::{closure#0}")
     okf = fac is not None and [t["callee"].get("def") for _, t in fac.calls()] == [WD.SERVER + "::WebServer::config"]
@@ -894,7 +932,7 @@ def c20(rep, W, rule="C20"):
     bad = []
     n_hdr = 0
     for b in W.prog.bodies.values():
-        if not b.unit.startswith(WD.SERVER):
+        if not b.unit in (WD.SERVER + "-lib", WD.SERVER + "-bin"):
             continue
         pvb = W.prov(b)
         for bb, t in b.calls():
